@@ -246,6 +246,35 @@ def merge(segs, base, stoks, where):
             repl[idx[0]] = new.lstrip() if tag == "replace" else None
             for k in idx[1:]:
                 repl[k] = None
+    # An inserted annotation block (proof steps, loop invariants, ghost lets: `//@+ ... //@-`) is anchored between two code
+    # tokens.  If the source changed right at that anchor (the code token just before or just after the block is not part of an
+    # unchanged run), the block may now sit in a different branch / statement than the one it was written for: its proof steps
+    # would then be checked against code they do not describe, and a failing proof step would look like a violation.  That is a
+    # conflict (the item is handed to its bounded stand-in), never an alarm.
+    changed_base = set()
+    for tag, i1, i2, j1, j2 in sm.get_opcodes():
+        if tag == "equal":
+            continue
+        for k in range(i1, i2):
+            changed_base.add(k)
+        if tag == "insert":
+            changed_base.add(("gap", i1))       # source tokens inserted between base[i1-1] and base[i1]
+    seg2base = {b[1]: k for k, b in enumerate(base) if b[1] is not None}
+    n = 0
+    while n < len(segs):
+        if segs[n].prov == "ins" and segs[n].text.lstrip().startswith("//@+") or (segs[n].prov == "marker" and segs[n].text.strip() == "//@+"):
+            m = n
+            while m < len(segs) and not (segs[m].text.strip() == "//@-"):
+                m += 1
+            prev_code = next((q for q in range(n - 1, -1, -1) if q in seg2base), None)
+            next_code = next((q for q in range(m + 1, len(segs)) if q in seg2base), None)
+            for q in (prev_code, next_code):
+                if q is not None and seg2base[q] in changed_base:
+                    raise ExtractError("%s: source changed at the anchor of an annotation block (token `%s`)" % (where, segs[q].text))
+            if next_code is not None and ("gap", seg2base[next_code]) in changed_base:
+                raise ExtractError("%s: source tokens inserted at the anchor of an annotation block (before `%s`)" % (where, segs[next_code].text))
+            n = m
+        n += 1
     out = []
     for n, s in enumerate(segs):
         if n in insert_before:
